@@ -78,6 +78,13 @@ def _k_ok(k, df, dt):
     if ki != k or ki <= 0 or ki % 4:
         return False
     y = F(df) * F(dt)
+    if y.denominator == 2:
+        # an EXACT half-integer product (e.g. df=2.5, dt=1): "round" in the property's formula is the language's
+        # round(), i.e. half-to-even -- a documented, deterministic rule, so the exact tie is decided.  Products that
+        # are merely within rounding distance of a tie stay undecided (rule 1).
+        q = y.numerator // 2                      # floor of the half-integer
+        q = q if q % 2 == 0 else q + 1
+        return ki // 4 == q
     return abs(F(ki // 4) - y) <= F(0.5) + y * F(1e-9)
 
 
@@ -1007,7 +1014,7 @@ def run(ctx):
              'tuples / operation prefixes',
         assumptions=['numpy Generator.chisquare / normal / standard_normal / choice / integers realise the distributions '
                      'they document (the check decides what is requested, not what numpy returns)',
-                     'df*dt >= 1 (the property quantifier); exact rounding ties of df*dt (x.5) are not decided',
+                     'df*dt >= 1 (the property quantifier); products within 1e-9 (relative) of a rounding tie are not decided; an exactly half-integer product is decided by round-half-to-even (Python round)',
                      'a frame that holds signals but has never held noise is neither "empty" nor "non-empty" for the '
                      'property: either estimate is accepted there and the case is counted as ambiguous',
                      'clipped estimates compared at 1e-9 relative; a sample within 1e-11 of a clipping bound makes the '
